@@ -182,6 +182,11 @@ def classify(diag, infos, path, unit):
         out["fn"] = li.fn or li.item_fn
         out["src"] = li.fn_src
         out["src_line"] = li.src_line
+        if li.fn and li.fn_kind == "body" and li.in_vc and li.tag_props and "assertion failed" in m:
+            # an assertion in a spliced proof block that was explicitly tagged: it restates a code-derived fact in terms of the
+            # specification (e.g. "the dynamic scalar vector is now spec(...)"), so its failure is a property-level failure
+            out.update(kind="prop", props=list(li.tag_props), id=li.tag_id)
+            return out
         if li.fn and li.fn_kind == "body" and not li.in_vc:
             props = None; cid = None
             # a failed precondition that is a tagged clause of a callee contract
